@@ -5,6 +5,7 @@ from sa.rules import backend as B
 from sa.rules import validators as V
 from sa.rules import ranges as RG
 from sa.rules import nameconv_rules as NC
+from sa.rules import cpp_rules as CC
 
 
 def main(tier):
@@ -25,6 +26,7 @@ def main(tier):
     r = cx.repo
     chk.run("R-CASEDEDUP", B.casededup, r, floor=3)
     chk.run("R-ENUMCASE", B.enumcase, r, floor=2)
+    chk.run("R-ENUMTEXT", CC.enumtext, cx.cpp, floor=2)
     chk.run("R-CASECONV", NC.caseconv, r, floor=1000)
     chk.run("R-ENUMINFER", V.enuminfer, r, floor=4)
     chk.run("R-EXACTNAME", B.exactname, r, floor=2)
